@@ -640,13 +640,18 @@ def _max_positional(f):
 def _sweep_names(node):
     raw = node.__wrapped__
     names = set()
-    for src in (raw, type(raw)):
+    for src in (raw, type(raw), node, type(node)):  # raw protocol + whatever the wrapper adds
         try:
             names |= set(dir(src))
         except Exception:
             pass
     pub = sorted(n for n in names if not n.startswith("_"))
     return pub + [h for h in COLLECTION_HOOKS if h in names]
+
+
+def _nouuid(names):
+    import re
+    return sorted(set(re.sub(r"=[0-9a-f]{8}-[0-9a-f-]{27}", "=<uuid>", x) for x in names))
 
 
 def _reserved_in_raw(rawdump):
@@ -717,7 +722,7 @@ def impl_attrs(case):
                 _handed_out(val, False, got)
                 bad = sorted(set(x for x in got if has_reserved(x)))
                 if bad:
-                    hit("attribute-exposes-reserved", via=attr, node=tpath, how="value", names=bad[:5])
+                    hit("attribute-exposes-reserved", via=attr, node=tpath, how="value", names=_nouuid(bad)[:5])
                 if not callable(val) or attr in NOT_CALLED:
                     continue
                 # (2) what the callable hands out: to a recording callback, as result, by iteration
@@ -736,7 +741,7 @@ def impl_attrs(case):
                     bad = sorted(set(x for x in seen if has_reserved(x)))
                     if bad:
                         tags.add("exposed")
-                        hit("attribute-exposes-reserved", via=attr, node=tpath, how=how, names=bad[:5], count=len(bad))
+                        hit("attribute-exposes-reserved", via=attr, node=tpath, how=how, names=_nouuid(bad)[:5], count=len(bad))
                     if not alive():
                         break
                 if not alive():
@@ -773,11 +778,11 @@ def impl_attrs(case):
                         shown = [a if isinstance(a, (str, int)) else "<dataset>" for a in args]
                         bad = sorted(set(x for x in seen if has_reserved(x)))
                         if bad:
-                            hit("reserved-accepted", method=attr, node=tpath, args=shown, returned=bad[:5])
+                            hit("reserved-accepted", method=attr, node=tpath, args=shown, returned=_nouuid(bad)[:5])
                         if after is not None:
                             ch = sorted(k for k in set(before) | set(after) if has_reserved(k) and before.get(k) != after.get(k))
                             if ch:
-                                hit("reserved-effect", method=attr, node=tpath, args=shown, outcome=res, changed=ch[:5])
+                                hit("reserved-effect", method=attr, node=tpath, args=shown, outcome=res, changed=_nouuid(ch)[:5])
                             before = after
                         tags.add("reserved-arg-probe")
             tags.add(("group" if is_grp else "dataset") + ":served=%d" % served)
@@ -1218,7 +1223,9 @@ def shrink(ctx, case, detail):
             c2 = dict(case, only=[[detail["node"], at]])
             if run_a(c2):
                 cur = c2
-        if len(cur.get("ops", [])) > 1:
+        if cur.get("ops") and run_a(dict(cur, ops=[])):
+            cur = dict(cur, ops=[])  # already on the empty container
+        elif len(cur.get("ops", [])) > 1:
             ops = core.ddmin(cur["ops"], lambda ops: bool(run_a(dict(cur, ops=ops))), max_tests=40)
             cur = dict(cur, ops=ops)
         ds = run_a(cur)
